@@ -14,6 +14,7 @@ package main
 
 import (
 	"fmt"
+	"go/constant"
 	"go/token"
 	"go/types"
 	"os"
@@ -1594,6 +1595,51 @@ func (p *relProver) proveSortLess(in ssa.Instruction, x, idx ssa.Value) (string,
 		if sl, ok := s.(*ssa.UnOp); ok && sl.Op == token.MUL && sl.X == ssa.Value(cell) {
 			return "D14 sort contract: less(i, j) is called with 0 <= i, j < len(s) for the slice handed to sort.Slice, which is the captured one", true
 		}
+	}
+	return "", false
+}
+
+// D15 — strings.Split contract: strings.Split(s, sep) with a non-empty constant sep returns 1 + strings.Count(s, sep)
+// elements, i.e. at least one; and at least 1 + Count(P, sep) when a dominating guard says strings.HasPrefix(s, P) for a
+// constant P. x[k] with x that result and k a constant below the bound is in range.
+func (p *relProver) proveSplitIndex(in ssa.Instruction, x, idx ssa.Value) (string, bool) {
+	k, ok := intConst(idx)
+	if !ok || k < 0 {
+		return "", false
+	}
+	cl, ok := x.(*ssa.Call)
+	if !ok || cl.Call.StaticCallee() == nil || funcKey(cl.Call.StaticCallee()) != "strings.Split" || len(cl.Call.Args) != 2 {
+		return "", false
+	}
+	sepC, ok := cl.Call.Args[1].(*ssa.Const)
+	if !ok || sepC.Value == nil || sepC.Value.Kind() != constant.String {
+		return "", false
+	}
+	sep := constant.StringVal(sepC.Value)
+	if sep == "" {
+		return "", false
+	}
+	bound := int64(1)
+	why := "at least one element"
+	for _, f := range p.e.gc.of(in.Block()) {
+		hc, ok := f.cond.(*ssa.Call)
+		if !ok || !f.pol || hc.Call.StaticCallee() == nil || funcKey(hc.Call.StaticCallee()) != "strings.HasPrefix" || len(hc.Call.Args) != 2 {
+			continue
+		}
+		if !p.same(hc.Call.Args[0], cl.Call.Args[0]) {
+			continue
+		}
+		pc, ok := hc.Call.Args[1].(*ssa.Const)
+		if !ok || pc.Value == nil || pc.Value.Kind() != constant.String {
+			continue
+		}
+		if n := int64(1 + strings.Count(constant.StringVal(pc.Value), sep)); n > bound {
+			bound = n
+			why = fmt.Sprintf("the string has the prefix %q, which contains the separator %d time(s)", constant.StringVal(pc.Value), n-1)
+		}
+	}
+	if k < bound {
+		return fmt.Sprintf("D15 strings.Split contract: %s, so the result has at least %d element(s)", why, bound), true
 	}
 	return "", false
 }
